@@ -20,7 +20,7 @@ Theorem C07_end_block : forall e c, bank_env_ok e -> BI c ->
 Proof. exact end_block_BI_sink. Qed.
 Print Assumptions C07_end_block.
 
-(** a whole block (begin-block, any transactions — sends, vesting-account creation at any address, authz,
+(** a whole block (begin-block, any transactions — sends, multi-sends, vesting-account creation at any address, authz,
     custom-module messages, accepted or not — then end-block) *)
 Theorem C07_block : forall e c txs, bank_env_ok e -> fees_ok_txs txs -> BI c ->
   let c' := fst (run_block e c txs) in
@@ -51,6 +51,32 @@ Theorem C07_accounting_after_every_block : forall o bs c,
   (forall d, balance (c_bank (run o c bs)) GenApp.burn_module_account d = 0%N).
 Proof. exact run_accounting. Qed.
 Print Assumptions C07_accounting_after_every_block.
+
+(** the multi-send route: a multi-send whose outputs sum to its input keeps the accounting identity, the supply and
+    the total balance of every denomination, and touches only the sender and the output addresses *)
+Theorem C07_multi_send_conserves : forall bk now from cs outs bk',
+  Bank_inv bk -> addr_ok from -> Forall (fun c => denom_ok (fst c)) cs ->
+  Forall (fun o => addr_ok (fst o) /\ Forall (fun c => denom_ok (fst c)) (snd o)) outs ->
+  (forall d, amount_of cs d = amount_of (outs_coins outs) d) ->
+  multi_send bk now from cs outs = Some bk' ->
+  Bank_inv bk' /\ (forall d, supply_of bk' d = supply_of bk d) /\
+  (forall d, denom_ok d -> total_balance bk' d = total_balance bk d) /\
+  (forall a d, addr_ok a -> denom_ok d -> a <> from -> ~ In a (map fst outs) -> balance bk' a d = balance bk a d).
+Proof. exact multi_send_conserves. Qed.
+Print Assumptions C07_multi_send_conserves.
+
+(** non-vacuity of that route: a validated multi-send with an output at the burn address is accepted, and the
+    end-blocker of the block burns exactly that output *)
+Theorem C07_multi_send_reaches_burn_address :
+  let c := with_bank empty_chain ms_bank in
+  bank_env_ok ms_env /\ BI c /\ vb_base ms_env ms_msg = Ok tt /\
+  exists c', exec_base ms_env c ms_msg = Ok (c', []) /\
+    balance (c_bank c') ms_A umed = 0%N /\ balance (c_bank c') GenApp.burn_address umed = 7%N /\
+    balance (c_bank c') ms_B umed = 3%N /\ supply_of (c_bank c') umed = 10%N /\
+    balance (c_bank (end_block ms_env c')) GenApp.burn_address umed = 0%N /\
+    supply_of (c_bank (end_block ms_env c')) umed = 3%N.
+Proof. exact multi_send_reaches_burn_address. Qed.
+Print Assumptions C07_multi_send_reaches_burn_address.
 
 (** the end-blocker returns normally whatever the state of the burn address (locked coins included) *)
 Theorem C07_never_halts : forall e c, burn_end_block (e_now e) (c_bank c) <> Panic.
